@@ -134,7 +134,15 @@ let run (input : string) (obs : string) : string * string =
         let model = if licensed then m else "SKIP " ^ m in
         let eff = (let g = state.gdepth in if rd <= 0 || g < rd then g else rd) in
         let sub = (match isub_of tu with Some s -> s | None -> assert false) in
-        let sem = RefSem.ref state.cfg nid state.db sub gas [] ((tu.t_ns, (nid, tu.t_obj)), tu.t_rel) in
+        (* strict mode: a relation that has a permission expression IS that expression; relationships stored directly on it
+           do not count (checkIsAllowed is mode-dependent), so the reference semantics is taken over the other rows *)
+        let sem_db =
+          if not state.strict then state.db else
+            { state.db with Sql.rows = List.filter (fun (r : Sql.row) ->
+                  match Ast.ast_relation_for state.cfg r.Sql.r_ns r.Sql.r_rel with
+                  | Datatypes.Coq_inl (Some x) -> (match x.Ast.rel_rewrite with Some _ -> false | None -> true)
+                  | _ -> true) state.db.Sql.rows } in
+        let sem = RefSem.ref state.cfg nid sem_db sub gas [] ((tu.t_ns, (nid, tu.t_obj)), tu.t_rel) in
         let verdict =
           (match words obs, sem with
            | [im; ie], Some b ->
@@ -142,6 +150,8 @@ let run (input : string) (obs : string) : string * string =
              if allowed && not b then
                (if state.has_not && (o.o_cut || eff < safe_depth || state.width < safe_depth)
                 then "fail:allowed-but-denied-by-the-semantics class=D2"
+                else if state.strict && RefSem.ref state.cfg nid state.db sub gas [] ((tu.t_ns, (nid, tu.t_obj)), tu.t_rel) = Some true
+                then "fail:allowed-but-denied-by-the-semantics class=D23"   (* allowed only because a row stored on a permission was counted *)
                 else "fail:allowed-but-denied-by-the-semantics")
              else if (not o.o_cut) && eff >= safe_depth && state.width >= safe_depth && ie = "0" && allowed <> b
              then "fail:denied-but-allowed-by-the-semantics-with-limits-not-binding"
